@@ -162,7 +162,7 @@ def digest_file(text):
     try:
         p = blackbird.load(path)
     except Exception as e:  # noqa
-        return ("EXC", type(e).__name__, str(e).replace(common.SCRATCH, "<D>")[:100])
+        return ("EXC", type(e).__name__, str(e).replace(path, "<FILE>").replace(common.SCRATCH, "<D>")[:100])
     return repr(observe.prog_canon(p, exact=True, variables=True))
 
 
